@@ -185,7 +185,8 @@ let k3_line (line : string) : string =
             c_macro = ((try List.assoc "macro" fs with Not_found -> "0") = "1");
             c_iter = (let sh = (try List.assoc "shape" fs with Not_found -> "") in
                       List.exists (fun pre -> String.length sh >= String.length pre && String.sub sh 0 (String.length pre) = pre)
-                        ["iterx_"; "iteru_"; "deque_"; "endless_"]) } in
+                        ["iterx_"; "iteru_"; "deque_"; "endless_"; "dequeref_"; "btset_"; "hashset_"; "llist_"; "bheap_"; "preiterx_"; "preiteru_"]);
+            c_pre = nat_of_int (int_of_string (try List.assoc "pre" fs with Not_found -> "0")) } in
   let o = exec c in
   (* parameters as they stand after the stages, before the trailing setters *)
   let rec drop_last2 = function [] | [_] | [_; _] -> [] | x :: r -> x :: drop_last2 r in
